@@ -5,7 +5,9 @@ import time
 CONTRACT_MODULES = ['c02_outputs', 'c15_iterations', 'c03_idmanager']
 LEVEL = 'other'
 TRUSTED = ['pyvc', 'z3 5.1.0 / cvc5 1.0.3', 'ENGINE-SPEC: the engine differentiates the formula it was given (assumed; sampled by the bounded harness)']
-ASSUMPTIONS = ['A-REAL', 'ENGINE-SPEC derivatives (external compiled engine)']
+ASSUMPTIONS = ['A-REAL', 'ENGINE-SPEC derivatives (external compiled engine)',
+               'assumed contracts (verify=False): Database.build_panel_map (individual map = panel.map_of(data, panel column) afterwards), Database.get_sample_size, BIOGEME._save_iterations_file_name and report_array (pure)',
+               'precondition of calculate_likelihood_and_derivatives: the id manager numbers the free parameters (free_betas.indices is a dict, names as many as number_of_free_betas)']
 EXPLANATION = ('That the engine derivatives are the derivatives of the value is engine-internal (assumed, sampled by a bounded finite-difference / closed-form harness). '
                'Proved on the Python side: entry i belongs to the i-th sorted name (numbering), name -> index conversion of named outputs, packaging of single observations, '
                'scaling by the sample size; static obligations: each named field is built from the field of the same name.')
